@@ -47,9 +47,9 @@ def jobs(tier, seed):
                 J.append(Job('C04.%s.e%d.b%d' % (name, e, base), 'harness/c_atof.cpp', '@h_atof', [kern, e & 0xffffffff, base, W, 0, 0, cands[0] & 0xffffffff, cands[1] & 0xffffffff], engine='cbmc', timeout=3000,
                              bound='%s, decimal exponent %d, all %d mantissas base=%d + delta (%s)' % ('AtofEiselLemire64' if kern == 0 else 'ParseFloatingNormalFast', e, 1 << W, base, desc),
                              extra=dict(bigw=260 + int(3.33 * abs(e)) + 1, unwind=352, input_names=[('int', 'delta')], cbmc_timeout=2400, seed=seed, witness_param=5, witness_optional=True, validate_vectors=2000)))
-    for t in range(38):
+    for t in range(40):
         J.append(Job('C04.text.t%d' % t, 'harness/c_numtext.cpp', '@h_numtext', [t], nproc=2, max_paths=100000, max_steps=20000000,
-                     bound='Document::Parse on number-text template #%d (harness/c_numtext.cpp kTmpl), every value of its symbolic digits' % t))
+                     bound=('Document::Parse on number-text template #%d (harness/c_numtext.cpp kTmpl), every value of its symbolic digits' % t) if t < 38 else 'Document::Parse on D%s.ddd…dD: every fraction length 1..20 (one per case of the vector digit reader), first and last digit symbolic' % ('' if t == 38 else '234')))
     J.append(Job('C04.table.kPow10M128Tab', 'harness/c_atof.cpp', '@h_atof', [], engine='ground', bound='rows 10^-348..10^347 of kPow10M128Tab = floor(10^k * 2^(127 - floor(log2 10^k))), read from the IR',
                  extra=dict(symbol='kPow10M128Tab', k0=-348, kmax=347, formula='floor_lo_hi', what='C04: kPow10M128Tab table')))
     return J
